@@ -733,10 +733,10 @@ Record good (c : cfg) (init : fs) (outs : list output) : Prop := {
   g_spares : forall o, In o outs -> spares c o = true
 }.
 
-Lemma plan_safe c init outs : forallb safe (plan c init outs) = true.
-Proof. unfold plan. rewrite forallb_app, write_ops_safe. apply forallb_ru_safe, clean_ops_ru. Qed.
+Lemma plan_safe c init outs : forallb safe (plan1 c init outs) = true.
+Proof. unfold plan1. rewrite forallb_app, write_ops_safe. apply forallb_ru_safe, clean_ops_ru. Qed.
 
-Lemma prefix_safe {c init outs p} : prefix_of p (plan c init outs) -> forallb safe p = true.
+Lemma prefix_safe {c init outs p} : prefix_of p (plan1 c init outs) -> forallb safe p = true.
 Proof.
   intros [r Hr]. pose proof (plan_safe c init outs) as H. rewrite Hr, forallb_app in H.
   now apply andb_true_iff in H as [H _].
@@ -775,11 +775,11 @@ Section Run.
     destruct s1_facts as (_ & F2 & _). now rewrite (F2 t Hin) in Hb.
   Qed.
 
-  (* every prefix of the plan is a prefix of the write loop, or the whole write
+  (* every prefix of the plan1 is a prefix of the write loop, or the whole write
      loop followed by a prefix of Clean *)
-  Lemma plan_prefix p : prefix_of p (plan c init outs) ->
+  Lemma plan_prefix p : prefix_of p (plan1 c init outs) ->
     prefix_of p W \/ exists q, p = (W ++ q)%list /\ prefix_of q (clean_ops c s1).
-  Proof. unfold plan. apply prefix_of_app. Qed.
+  Proof. unfold plan1. apply prefix_of_app. Qed.
 
   Lemma clean_prefix_facts q : prefix_of q (clean_ops c s1) ->
     forallb ru q = true /\
@@ -793,7 +793,7 @@ Section Run.
   Qed.
 
   (* the general description of the state after any prefix *)
-  Lemma prefix_state p : prefix_of p (plan c init outs) ->
+  Lemma prefix_state p : prefix_of p (plan1 c init outs) ->
     let s := exec init p in
     (forall o, In o outs ->
        lookup (o_name o) (dir s) = lookup (o_name o) (dir init) \/
@@ -841,7 +841,7 @@ Section Run.
     f_equal. apply D. exact (g_wf _ _ _ G n i E).
   Qed.
 
-  Theorem atomic p o : prefix_of p (plan c init outs) -> In o outs ->
+  Theorem atomic p o : prefix_of p (plan1 c init outs) -> In o outs ->
     visible (exec init p) (o_name o) = visible init (o_name o) \/
     visible (exec init p) (o_name o) = Some (new_bytes o).
   Proof.
@@ -851,7 +851,7 @@ Section Run.
     - right. unfold visible. now rewrite L, Dn.
   Qed.
 
-  Theorem frame p n : prefix_of p (plan c init outs) ->
+  Theorem frame p n : prefix_of p (plan1 c init outs) ->
     ~ In n (names outs) -> ~ In n (temps outs) -> ~ In n (victims c s1) ->
     lookup n (dir (exec init p)) = lookup n (dir init) /\ visible (exec init p) n = visible init n.
   Proof.
@@ -859,7 +859,7 @@ Section Run.
     split; [now apply B|]. apply visible_eq; [now apply B|exact D].
   Qed.
 
-  Theorem victim_old_or_gone p n : prefix_of p (plan c init outs) -> In n (victims c s1) ->
+  Theorem victim_old_or_gone p n : prefix_of p (plan1 c init outs) -> In n (victims c s1) ->
     visible (exec init p) n = visible init n \/ visible (exec init p) n = None.
   Proof.
     intros Hp Hv. destruct (prefix_state p Hp) as (_ & _ & V & _ & D).
@@ -868,12 +868,12 @@ Section Run.
     - right. unfold visible. now rewrite L.
   Qed.
 
-  Theorem old_inodes_keep_bytes p j : prefix_of p (plan c init outs) -> j < next init ->
+  Theorem old_inodes_keep_bytes p j : prefix_of p (plan1 c init outs) -> j < next init ->
     data (exec init p) j = data init j.
   Proof. intros Hp. now apply prefix_state. Qed.
 
   (* a hard link: another name of the inode an old output had *)
-  Theorem hard_link_keeps_old p o l i : prefix_of p (plan c init outs) -> In o outs ->
+  Theorem hard_link_keeps_old p o l i : prefix_of p (plan1 c init outs) -> In o outs ->
     lookup (o_name o) (dir init) = Some i -> lookup l (dir init) = Some i ->
     ~ In l (names outs) -> ~ In l (temps outs) -> ~ In l (victims c s1) ->
     visible (exec init p) l = visible init (o_name o).
@@ -883,12 +883,12 @@ Section Run.
   Qed.
 
   (* what a reader has opened stays what it was *)
-  Theorem reader_stability p r n i : prefix_of (p ++ r)%list (plan c init outs) ->
+  Theorem reader_stability p r n i : prefix_of (p ++ r)%list (plan1 c init outs) ->
     ~ In n (temps outs) -> lookup n (dir (exec init p)) = Some i ->
     data (exec init (p ++ r)) i = data (exec init p) i.
   Proof.
     intros Hpr Ht L.
-    assert (Hp : prefix_of p (plan c init outs)).
+    assert (Hp : prefix_of p (plan1 c init outs)).
     { destruct Hpr as [x Hx]. exists (r ++ x)%list. now rewrite app_assoc. }
     destruct (prefix_state p Hp) as (_ & _ & _ & C & _).
     rewrite exec_app. apply exec_closed; [|exact (C n i Ht L)].
@@ -897,7 +897,7 @@ Section Run.
 
   (* the state after the complete run *)
   Theorem final_state :
-    let s := exec init (plan c init outs) in
+    let s := exec init (plan1 c init outs) in
     (forall o, In o outs -> visible s (o_name o) = Some (new_bytes o)) /\
     (forall t, In t (temps outs) -> lookup t (dir s) = None) /\
     (forall n, In n (victims c s1) -> lookup n (dir s) = None) /\
@@ -905,7 +905,7 @@ Section Run.
        lookup n (dir s) = lookup n (dir init) /\ visible s n = visible init n) /\
     nofds s.
   Proof.
-    cbn zeta. unfold plan. fold W. rewrite exec_app. fold s1.
+    cbn zeta. unfold plan1. fold W. rewrite exec_app. fold s1.
     destruct s1_facts as (F1 & F2 & F3 & F4 & F5 & F6 & F7 & F8).
     destruct (clean_prefix_facts _ (prefix_of_refl (clean_ops c s1))) as [Hru Hunt].
     destruct (exec_ru _ s1 Hru) as (Ed & Ef & En & El).
@@ -915,13 +915,13 @@ Section Run.
     - intros t Hin. rewrite (Hunt _ (temp_not_victim t Hin)). now apply F2.
     - intros n Hv. apply exec_ru_unlinked; [exact Hru|now apply victims_unlinked].
     - rewrite (Hunt _ H1). now apply F3.
-    - pose proof (frame (plan c init outs) n (prefix_of_refl _) H H0 H1) as [_ V].
-      unfold plan in V. fold W in V. rewrite exec_app in V. exact V.
+    - pose proof (frame (plan1 c init outs) n (prefix_of_refl _) H H0 H1) as [_ V].
+      unfold plan1 in V. fold W in V. rewrite exec_app in V. exact V.
     - intros h. rewrite Ef. apply F4.
   Qed.
 
   (* no name appears that is not an output (or, before the end, a temporary) *)
-  Theorem new_names_are_outputs_or_temps p n : prefix_of p (plan c init outs) ->
+  Theorem new_names_are_outputs_or_temps p n : prefix_of p (plan1 c init outs) ->
     lookup n (dir (exec init p)) <> None -> lookup n (dir init) = None ->
     In n (names outs) \/ In n (temps outs).
   Proof.
@@ -964,7 +964,7 @@ End Run.
 (* a file that Clean's description does not select and that is not an output
    name keeps its name, inode and bytes at every instant *)
 Theorem not_selected_untouched c init outs p n :
-  good c init outs -> prefix_of p (plan c init outs) ->
+  good c init outs -> prefix_of p (plan1 c init outs) ->
   ~ In n (names outs) -> lookup n (dir init) <> None -> victim_spec c init n = false ->
   lookup n (dir (exec init p)) = lookup n (dir init) /\ visible (exec init p) n = visible init n.
 Proof.
@@ -1170,9 +1170,9 @@ Proof.
 Qed.
 
 Theorem plan_all_ok c init outs : good c init outs -> keys_nodup (dir init) ->
-  all_ok init (plan c init outs) = true.
+  all_ok init (plan1 c init outs) = true.
 Proof.
-  intros G Hk. unfold plan. rewrite all_ok_app, (plan_all_ok_writes c init outs G). cbn.
+  intros G Hk. unfold plan1. rewrite all_ok_app, (plan_all_ok_writes c init outs G). cbn.
   set (s1 := exec init (write_ops (c_fd c) outs)).
   unfold clean_ops. destruct (c_clean c); [|reflexivity].
   apply clean_loop_ok; auto.
@@ -1270,7 +1270,7 @@ Qed.
 (* --------------------------------------------- the order of the outputs (Go map) *)
 Theorem order_independent c init outs outs' :
   Permutation outs outs' -> good c init outs -> good c init outs' ->
-  forall n, visible (exec init (plan c init outs)) n = visible (exec init (plan c init outs')) n.
+  forall n, visible (exec init (plan1 c init outs)) n = visible (exec init (plan1 c init outs')) n.
 Proof.
   intros HP G G' n.
   destruct (final_state c init outs G) as (A & B & C & D & _).
@@ -1364,7 +1364,7 @@ Proof. intros F A H1 H2 H3. split; auto. now apply current_code_spares. Qed.
 (* if, at any crash point, some file selected by Clean is already gone, then every output
    of the run already shows its complete new content *)
 Theorem removed_only_when_superseded c init outs p n o :
-  good c init outs -> prefix_of p (plan c init outs) ->
+  good c init outs -> prefix_of p (plan1 c init outs) ->
   In n (victims c (exec init (write_ops (c_fd c) outs))) -> lookup n (dir (exec init p)) = None ->
   In o outs -> visible (exec init p) (o_name o) = Some (new_bytes o).
 Proof.
@@ -1463,9 +1463,9 @@ Proof.
   - cbn. apply lookup_remove_eq.
 Qed.
 
-Lemma plan_createtemp c init outs h t : In (CreateTemp h t) (plan c init outs) -> In t (temps outs).
+Lemma plan_createtemp c init outs h t : In (CreateTemp h t) (plan1 c init outs) -> In t (temps outs).
 Proof.
-  unfold plan. intros H. apply in_app_or in H as [H|H].
+  unfold plan1. intros H. apply in_app_or in H as [H|H].
   - unfold write_ops in H. apply in_flat_map in H as (o & Ho & H). unfold note_down in H.
     destruct H as [H|H].
     + injection H as _ <-. now apply in_map.
@@ -1475,20 +1475,20 @@ Proof.
     rewrite forallb_forall in R. specialize (R _ H). discriminate.
 Qed.
 
-Lemma recover_props c init outs k x : nth_error (plan c init outs) k = Some x ->
-  let cl := recover x (firstn k (plan c init outs)) in
+Lemma recover_props c init outs k x : nth_error (plan1 c init outs) k = Some x ->
+  let cl := recover x (firstn k (plan1 c init outs)) in
   forallb safe cl = true /\ forall o n, In o cl -> In n (touch o) -> In n (temps outs).
 Proof.
   intros Hx. cbn zeta. destruct x as [h t|h b|h|a b|m|m|h m|w]; cbn [recover]; try (split; [reflexivity|intros o n []]).
-  destruct (last_temp h (firstn k (plan c init outs))) as [t|] eqn:E; [|split; [reflexivity|intros o n []]].
+  destruct (last_temp h (firstn k (plan1 c init outs))) as [t|] eqn:E; [|split; [reflexivity|intros o n []]].
   split; [reflexivity|]. intros o n [<-|[<-|[]]]; cbn; [intros []|].
   intros [<-|[]]. apply last_temp_In in E. apply (plan_createtemp c init outs h).
   exact (prefix_of_In _ _ _ (prefix_of_firstn k _) E).
 Qed.
 
-Lemma faulted_safe c init outs k : forallb safe (faulted (plan c init outs) k) = true.
+Lemma faulted_safe c init outs k : forallb safe (faulted (plan1 c init outs) k) = true.
 Proof.
-  unfold faulted. destruct (nth_error (plan c init outs) k) as [x|] eqn:E; [|apply plan_safe].
+  unfold faulted. destruct (nth_error (plan1 c init outs) k) as [x|] eqn:E; [|apply plan_safe].
   rewrite forallb_app, (prefix_safe (prefix_of_firstn k _)).
   now destruct (recover_props c init outs k x E) as [-> _].
 Qed.
@@ -1498,12 +1498,12 @@ Section Faults.
   Hypothesis G : good c init outs.
 
   (* what a name other than a temporary shows after the recovery calls is what it showed at the crash point *)
-  Lemma vis_after_recover k x n : nth_error (plan c init outs) k = Some x -> ~ In n (temps outs) ->
-    let p := firstn k (plan c init outs) in
+  Lemma vis_after_recover k x n : nth_error (plan1 c init outs) k = Some x -> ~ In n (temps outs) ->
+    let p := firstn k (plan1 c init outs) in
     lookup n (dir (exec init (p ++ recover x p))) = lookup n (dir (exec init p)) /\
     visible (exec init (p ++ recover x p)) n = visible (exec init p) n.
   Proof.
-    intros Hx Hn. cbn zeta. set (p := firstn k (plan c init outs)).
+    intros Hx Hn. cbn zeta. set (p := firstn k (plan1 c init outs)).
     destruct (recover_props c init outs k x Hx) as [Hs Ht]. fold p in Hs, Ht.
     rewrite exec_app.
     assert (L : lookup n (dir (exec (exec init p) (recover x p))) = lookup n (dir (exec init p))).
@@ -1516,7 +1516,7 @@ Section Faults.
 
   (* every statement about crash points also holds after a failing call and its recovery *)
   Theorem faulted_invariants k :
-    let s := exec init (faulted (plan c init outs) k) in
+    let s := exec init (faulted (plan1 c init outs) k) in
     (forall o, In o outs -> visible s (o_name o) = visible init (o_name o) \/ visible s (o_name o) = Some (new_bytes o)) /\
     (forall n, ~ In n (names outs) -> ~ In n (temps outs) -> ~ In n (victims c (exec init (write_ops (c_fd c) outs))) ->
        lookup n (dir s) = lookup n (dir init) /\ visible s n = visible init n) /\
@@ -1524,17 +1524,17 @@ Section Faults.
     (forall j, j < next init -> data s j = data init j).
   Proof.
     cbn zeta. split; [|split; [|split]].
-    - intros o Ho. unfold faulted. destruct (nth_error (plan c init outs) k) as [x|] eqn:E.
+    - intros o Ho. unfold faulted. destruct (nth_error (plan1 c init outs) k) as [x|] eqn:E.
       + assert (Hn : ~ In (o_name o) (temps outs)).
         { intros H. apply (k_disj _ _ (g_ok _ _ _ G) _ H). now apply in_map. }
         destruct (vis_after_recover k x (o_name o) E Hn) as [_ ->].
         exact (atomic c init outs G _ o (prefix_of_firstn k _) Ho).
       + exact (atomic c init outs G _ o (prefix_of_refl _) Ho).
-    - intros n H1 H2 H3. unfold faulted. destruct (nth_error (plan c init outs) k) as [x|] eqn:E.
+    - intros n H1 H2 H3. unfold faulted. destruct (nth_error (plan1 c init outs) k) as [x|] eqn:E.
       + destruct (vis_after_recover k x n E H2) as [-> ->].
         exact (frame c init outs G _ n (prefix_of_firstn k _) H1 H2 H3).
       + exact (frame c init outs G _ n (prefix_of_refl _) H1 H2 H3).
-    - intros n Hv. unfold faulted. destruct (nth_error (plan c init outs) k) as [x|] eqn:E.
+    - intros n Hv. unfold faulted. destruct (nth_error (plan1 c init outs) k) as [x|] eqn:E.
       + assert (Hn : ~ In n (temps outs)) by (intros H; now apply (temp_not_victim c init outs G n H)).
         destruct (vis_after_recover k x n E Hn) as [_ ->].
         exact (victim_old_or_gone c init outs G _ n (prefix_of_firstn k _) Hv).
@@ -1544,12 +1544,12 @@ Section Faults.
 
   (* no temporary file is left unless it is the rename that failed *)
   Theorem faulted_no_temp_left k x t :
-    nth_error (plan c init outs) k = Some x -> can_fail x = true -> is_rename x = false ->
-    In t (temps outs) -> lookup t (dir (exec init (faulted (plan c init outs) k))) = None.
+    nth_error (plan1 c init outs) k = Some x -> can_fail x = true -> is_rename x = false ->
+    In t (temps outs) -> lookup t (dir (exec init (faulted (plan1 c init outs) k))) = None.
   Proof.
     intros Hx Hcf Hnr Ht. unfold faulted. rewrite Hx.
-    set (p := firstn k (plan c init outs)).
-    assert (Hpx : prefix_of (p ++ [x]) (plan c init outs)).
+    set (p := firstn k (plan1 c init outs)).
+    assert (Hpx : prefix_of (p ++ [x]) (plan1 c init outs)).
     { unfold p. rewrite <- (firstn_S_nth _ k x Hx). apply prefix_of_firstn. }
     pose proof G as [G1 G2 G3 _].
     destruct (plan_prefix c init outs _ Hpx) as [Hw|(q & E & Hq)].
@@ -1618,3 +1618,36 @@ Section Faults.
         destruct (El t) as [El'|El']; [rewrite El'; now apply F2|exact El'].
   Qed.
 End Faults.
+
+(* ------------------------------------ the whole run: nothing generated, no cleanup *)
+(* [plan c init outs] = [plan1 (reached c outs) init outs]: every statement above transfers *)
+Lemma good_reached c init outs : good c init outs -> good (reached c outs) init outs.
+Proof.
+  intros [H1 H2 H3 H4]. split; auto. intros o Ho.
+  destruct outs as [|x l]; [destruct Ho|].
+  specialize (H4 o Ho). unfold spares, is_own, gen_sel, superseded in *.
+  cbn [reached c_clean c_cmd c_dirdot c_fixed c_supfix c_tags c_covered c_genfile is_nil negb].
+  rewrite andb_true_r. exact H4.
+Qed.
+
+Lemma plan_nothing_generated c init : plan c init [] = [].
+Proof. unfold plan, plan1, clean_ops. cbn. now rewrite andb_false_r. Qed.
+
+Lemma removed_nothing_generated c init : removed c init [] = [].
+Proof. unfold removed, victims. cbn. now rewrite andb_false_r. Qed.
+
+Lemma reached_perm c outs outs' : Permutation outs outs' -> reached c outs = reached c outs'.
+Proof.
+  intros HP. destruct outs as [|x l], outs' as [|y m]; try reflexivity.
+  - now apply Permutation_nil_cons in HP.
+  - apply Permutation_sym in HP. now apply Permutation_nil_cons in HP.
+Qed.
+
+Theorem order_independent_plan c init outs outs' :
+  Permutation outs outs' -> good c init outs -> good c init outs' ->
+  forall n, visible (exec init (plan c init outs)) n = visible (exec init (plan c init outs')) n.
+Proof.
+  intros HP G G' n. unfold plan. rewrite <- (reached_perm c outs outs' HP).
+  apply order_independent; [exact HP|now apply good_reached|].
+  rewrite (reached_perm c outs outs' HP). now apply good_reached.
+Qed.
